@@ -106,7 +106,9 @@ def run(tier, seed, replay=None):
     samples = []
     # (T3) decompiled code = denoted trees
     n = 90 if tier == "quick" else 900
-    cases = harness.gen_cases(seed, 1, n, lambda rng, i: (lambda pr: gen.add_aliases(rng, pr) if i % 4 == 1 else pr)(gen.add_feature_tests(rng, gen.gen_expr_program(rng)) if i % 3 == 2 else gen.gen_expr_program(rng)))
+    # every fifth program puts directives on its passes (MaxRuleLoop, MaxBackup, CollisionFix, AutoKern): the pass
+    # headers of the font have to say the same
+    cases = harness.gen_cases(seed, 1, n, lambda rng, i: gen.add_pass_directives(rng, gen.gen_pos_program(rng)) if i % 10 == 8 else (lambda pr: gen.add_pass_directives(rng, pr) if i % 5 == 3 else pr)((lambda pr: gen.add_aliases(rng, pr) if i % 4 == 1 else pr)(gen.add_feature_tests(rng, gen.gen_expr_program(rng)) if i % 3 == 2 else gen.gen_expr_program(rng))))
     for i, (name, prog) in enumerate(cases):
         opts = OPTS[i % len(OPTS)]
         r = harness.compile_cases(build, work, [(name, prog)], extra_args=opts)[0]
